@@ -98,9 +98,9 @@ def pinvStandIn {p : Nat} (S : Mat F p p) : Except String (Mat F p p) :=
   match gaussInv p (toArr S) with
   | none => .error "singular"
   | some Xa =>
-    let X : Mat F p p := memoM (ofArr Xa)
-    let E := msub (mmul S X) eye
-    if BigF.lt (tiny 100) (maxAbs E) then .error "contract-pinv" else .ok X
+    let X : MemoM F p p := memoM (ofArr Xa)
+    let E := msub (mmul S X.mfn) eye
+    if BigF.lt (tiny 100) (maxAbs E) then .error "contract-pinv" else .ok X.mfn
 
 /-- lower-triangle mirror (LAPACK's Cholesky reads only the lower triangle) -/
 def symL {n} (M : Mat F n n) : Mat F n n := fun i j => if j.val ≤ i.val then M i j else M j i
@@ -126,9 +126,9 @@ def cholStandIn {n : Nat} (M : Mat F n n) : Except String (Mat F n n) :=
   match cholArr n (toArr M) with
   | none => .error "not-pd"
   | some La =>
-    let L : Mat F n n := memoM (ofArr La)
-    let E := msub (mmul L (transpose L)) (symL M)
-    if BigF.lt (BigF.mul (tiny 140) (maxAbs M)) (maxAbs E) then .error "contract-msqrt" else .ok L
+    let L : MemoM F n n := memoM (ofArr La)
+    let E := msub (mmul L.mfn (transpose L.mfn)) (symL M)
+    if BigF.lt (BigF.mul (tiny 140) (maxAbs M)) (maxAbs E) then .error "contract-msqrt" else .ok L.mfn
 
 /-! Kernel parameters of the model are total functions; the stand-ins can fail. Every handler first
 runs a pre-flight (`ekfWhy`, `ukfWhy`) that evaluates the kernels' arguments exactly as the model does
@@ -184,13 +184,13 @@ def affPart {r n m} (A : Mat F r n) (B : Mat F r m) (c tv : Vec F r) (t : F) (x 
 
 def famFun {r n m} (A : Mat F r n) (B : Mat F r m) (c tv a : Vec F r) (W : Mat F r n) (V : Mat F r m)
     (ph : Vec F r) (t : F) (x : Vec F n) (u : Vec F m) : Vec F r :=
-  memoV fun i =>
+  fun i =>
     let lin := affPart A B c tv t x u i
     if (a i).isZero then lin else lin + a i * BigF.sin (mulVec W x i + mulVec V u i + ph i)
 
 def famJac {r n m} (A : Mat F r n) (a : Vec F r) (W : Mat F r n) (V : Mat F r m)
     (ph : Vec F r) (x : Vec F n) (u : Vec F m) : Mat F r n :=
-  memoM fun i =>
+  fun i =>
     if (a i).isZero then A i else
     let cz := a i * BigF.cos (mulVec W x i + mulVec V u i + ph i)
     fun j => A i j + cz * W i j
@@ -226,11 +226,11 @@ def runRd {β} (toks : List String) (act : RdM β) : Except String β := do
 /-- pre-flight: evaluate the kernels' arguments exactly as the model does and run the stand-ins with
 their contract checks; `"ok"` or the error kind -/
 def ekfWhy {n m p} (s : Step F n m p) (pr : Post F n) : String :=
-  let A := s.sys.jf pr.x s.u
-  let C := s.sys.jg pr.x s.u
-  let Pm := memoM (madd (mmul (mmul A pr.P) (transpose A)) s.Q)
-  let S := memoM (madd (mmul (mmul C Pm) (transpose C)) s.R)
-  match pinvStandIn S with | .ok _ => "ok" | .error e => e
+  let A := memoM (s.sys.jf pr.x s.u)
+  let C := memoM (s.sys.jg pr.x s.u)
+  let Pm := memoM (madd (mmul (mmul A.mfn pr.P) (transpose A.mfn)) s.Q)
+  let S := memoM (madd (mmul (mmul C.mfn Pm.mfn) (transpose C.mfn)) s.R)
+  match pinvStandIn S.mfn with | .ok _ => "ok" | .error e => e
 
 def ukfWhy {n m p} (kk : F) (s : Step F n m p) (pr : Post F n) : String :=
   match cholStandIn (msmul (k n + kk) pr.P) with
@@ -241,17 +241,17 @@ def ukfWhy {n m p} (kk : F) (s : Step F n m p) (pr : Post F n) : String :=
     let b := wr n kk
     let xs := (sigmaPoints cholK pr.x pr.P kk).map (fun pt => s.sys.f pt s.u)
     let xe := memoV (xs.wsum a b)
-    let ex := xs.dev xe
+    let ex := xs.dev xe.fn
     let Pm := memoM (madd s.Q (ex.cov a b ex))
-    match cholStandIn (msmul (k n + kk) Pm) with
+    match cholStandIn (msmul (k n + kk) Pm.mfn) with
     | .error e => e ++ "-2"
     | .ok _ =>
-      let s2 := sigmaPoints cholK xe Pm kk
+      let s2 := sigmaPoints cholK xe.fn Pm.mfn kk
       let ys := s2.map (fun pt => s.sys.g pt s.u)
       let ye := memoV (ys.wsum a b)
-      let ey := ys.dev ye
+      let ey := ys.dev ye.fn
       let Py := memoM (madd s.R (ey.cov a b ey))
-      match pinvStandIn Py with | .ok _ => "ok" | .error e => e
+      match pinvStandIn Py.mfn with | .ok _ => "ok" | .error e => e
 
 def opsC13 : List (String × Handler) := [
   -- c13.ekf n m p  t <family> u y Q R x P        -> x' P'
@@ -287,11 +287,13 @@ def opsC13 : List (String × Handler) := [
           let r ← rdV N
           return (sp, xp, r))
         let Rinv ← pinvStandIn s.R
-        let w := pfWeights (memoM Rinv) lz s xp
-        let idx := pfIndices w r
+        let Ri := memoM Rinv
+        let w := pfWeights Ri.mfn lz s xp
+        let cs := memoV (cumsum w.fn)
+        let idx := memoV (pfIndices cs.fn r)
         if hN : 0 < N then
           let o ← outPost (pf hN pinvK lz s xp r)
-          return o ++ " " ++ fmt ((List.ofFn idx).map (fun i => BigF.ofNat i) ++ flatV w)
+          return o ++ " " ++ fmt ((List.ofFn idx.fn).map (fun i => BigF.ofNat i) ++ flatV w.fn)
         else throw "no-particles"
       | _ => throw "arity"),
   -- c13.weights n kk -> w0 wr
